@@ -105,15 +105,30 @@ func (fx *FnExec) monitorLock(st *State, fr *frame, site ssa.Instruction, cc *ss
 	}
 	owner := st.val(ownerVal)
 	env := fx.monitorEnv(st, m, owner)
+	before := st.snapshotHeap()
 	for _, g := range m.guardExprs(fx) {
 		fx.havocTarget(st, env, g)
 	}
+	defer fx.heapWFAfterHavoc(st, before)
 	for _, gname := range m.GhostHavoc {
 		e, err := ParseExpr(gname)
 		if err != nil {
 			panic(evalErr{err.Error()})
 		}
 		fx.havocTarget(st, env, e)
+	}
+	// rely: between this thread's last Unlock and this Lock only other threads'
+	// critical sections ran, each of which preserves the two-state invariants
+	if us, ok := st.unlockSnap[m.Key+"|"+owner]; ok {
+		renv := *env
+		renv.old = us
+		for _, c := range m.Invariants2 {
+			v, err := renv.safeEval(c.Expr)
+			if err != nil {
+				panic(fmt.Sprintf("%s:%d: %v", c.File, c.Line, err))
+			}
+			st.assume(v.t)
+		}
 	}
 	// two-state invariants: old(e) is e at this Lock
 	snap := st.snapshotHeap()
@@ -131,6 +146,18 @@ func (fx *FnExec) monitorLock(st *State, fr *frame, site ssa.Instruction, cc *ss
 			panic(fmt.Sprintf("%s:%d: %v", c.File, c.Line, err))
 		}
 		st.assume(v.t)
+	}
+	// stable (rely) facts of the function under verification
+	if fr != nil && fr.fc != nil {
+		fenv := fx.frameEnv(st, fr)
+		for _, c := range fr.fc.Stable {
+			v, err := fenv.safeEval(c.Expr)
+			if err != nil {
+				panic(fmt.Sprintf("%s:%d: %v", c.File, c.Line, err))
+			}
+			st.assume(v.t)
+			fx.notes = appendUnique(fx.notes, fmt.Sprintf("RELY (stable under other threads, paper argument) in %s: %s", shortFn(fr.fn), c.Src))
+		}
 	}
 }
 
@@ -153,6 +180,23 @@ func (fx *FnExec) monitorUnlock(st *State, fr *frame, site ssa.Instruction, cc *
 			panic(fmt.Sprintf("%s:%d: %v", c.File, c.Line, err))
 		}
 		fx.emit(st, fr, "monitor", clauseName(c, i)+"@"+ordName, v.t, c.Props, c.Src)
+	}
+	{
+		us := make(map[string]map[string]Term, len(st.unlockSnap)+1)
+		for k, v := range st.unlockSnap {
+			us[k] = v
+		}
+		us[m.Key+"|"+owner] = st.snapshotHeap()
+		st.unlockSnap = us
+	}
+	if _, haveSnap := st.lockSnap[m.Key+"|"+owner]; haveSnap {
+		for i, c := range m.Invariants2 {
+			v, err := env.safeEval(c.Expr)
+			if err != nil {
+				panic(fmt.Sprintf("%s:%d: %v", c.File, c.Line, err))
+			}
+			fx.emit(st, fr, "monitor", clauseName(c, i)+"@"+ordName, v.t, c.Props, c.Src)
+		}
 	}
 }
 
@@ -250,4 +294,23 @@ func (fx *FnExec) immutableStore(st *State, fr *frame, lv *LValue, x *ssa.Store)
 		return
 	}
 	fx.emit(st, fr, "immutable", fx.ord(fr.fn, x, "store")+"/"+lv.fieldName, "false", nil, "")
+}
+
+
+// heapWFAfterHavoc: whatever other threads wrote into the guarded state, the
+// result is a well-formed heap (stored references denote existing objects).
+func (fx *FnExec) heapWFAfterHavoc(st *State, before map[string]Term) {
+	for _, name := range sortedTermKeys(st.heap) {
+		if before[name] == st.heap[name] {
+			continue
+		}
+		srt := fx.heapSorts[name]
+		if fx.heapWF(name, srt, "x", st.alloc) == "" {
+			continue
+		}
+		c := fx.freshConst(name+"@c", srt)
+		st.assume("(= " + c + " " + st.heap[name] + ")")
+		st.heap[name] = c
+		st.assume(fx.heapWF(name, srt, c, st.alloc))
+	}
 }
